@@ -641,7 +641,10 @@ func (c *compiler) compile(tok *token) []instruction {
 		for i := len(tok.Tokens[switchCases].Tokens) - 1; i >= 0; i-- {
 			cs := tok.Tokens[switchCases].Tokens[i]
 			const caseStmt, caseBlock = 0, 1
-			csStmt := c.optimize(c.compile(cs.Tokens[caseStmt]))
+			csVals := []*token{cs.Tokens[caseStmt]}
+			if cs.Tokens[caseStmt].Symbol == "," {
+				csVals = cs.Tokens[caseStmt].Tokens
+			}
 			c.Begin()
 			csBlock := c.optimize(c.compileAll(cs.Tokens[caseBlock].Tokens))
 			for n, ins := range csBlock {
@@ -651,13 +654,21 @@ func (c *compiler) compile(tok *token) []instruction {
 				}
 			}
 			c.End()
+			// case a, b, c: test each value in turn; all but the last jump into the block on a match
 			var chunk []instruction
-			chunk = append(chunk, csStmt...)
-			if isValue {
-				chunk = append(chunk, instruction{Code: codeLocalGet, A: reg(v)})
-				chunk = append(chunk, instruction{Code: codeEq})
+			for n := len(csVals) - 1; n >= 0; n-- {
+				test := c.optimize(c.compile(csVals[n]))
+				if isValue {
+					test = append(test, instruction{Code: codeLocalGet, A: reg(v)})
+					test = append(test, instruction{Code: codeEq})
+				}
+				if n == len(csVals)-1 {
+					test = append(test, instruction{Code: codeJumpFalse, A: reg(len(csBlock) + 1)})
+				} else {
+					test = append(test, instruction{Code: codeJumpTrue, A: reg(len(chunk))})
+				}
+				chunk = append(test, chunk...)
 			}
-			chunk = append(chunk, instruction{Code: codeJumpFalse, A: reg(len(csBlock) + 1)})
 			chunk = append(chunk, csBlock...)
 			chunk = append(chunk, instruction{Code: codeJump, A: reg(len(out) + len(defBlock))})
 			out = append(chunk, out...)
